@@ -14,6 +14,7 @@ type Node struct {
 	KW       string
 	Params   string
 	Ann      string
+	AnnStyle int      // 0 "// text", 1 text with tabs and runs of spaces, 2 multi-line "/* ... */"
 	Body     []string // body lines (without indentation)
 	Kids     []*Node
 	Explicit bool
@@ -29,6 +30,13 @@ type Doc struct {
 type genCfg struct {
 	Types, Enums, Macros, URLs, Servers, Tags int
 	RPC                                       bool
+	RuleFuzz                                  bool // schema rules with edge values ({type: ""}, {or: []}, ...): mostly invalid documents
+	PathBodyFuzz                              bool // Path bodies that are not objects (type references incl. regex types, arrays, scalars)
+	MessyAnn                                  bool // annotations with tabs, runs of spaces and multi-line /* */ form
+	UnusedMacros                              int  // macros that nobody pastes, with bodies of kinds used nowhere else
+	MacroGraph                                int  // n macros with random PASTE edges (cycles possible) and a real PASTE
+	DupPathParams                             int  // a path with this many different parameter names each used twice
+	PathRedescribe                            int  // a Path directive describing again this many parameters of an outer Path
 	EnumsInTypes                              bool // enum rules inside TYPE bodies (the library mishandles some of these documents)
 	// planted authoring faults (documents on which hashed iteration order can show)
 	RecursiveMacros  int
@@ -54,7 +62,10 @@ type gen struct {
 func randomCfg(r *rng) genCfg {
 	c := genCfg{
 		Types: r.n(5), Enums: r.n(3), Macros: r.n(3), URLs: 1 + r.n(3), Servers: r.n(3), Tags: r.n(3),
-		RPC: r.chance(250), EnumsInTypes: r.chance(300),
+		RPC: r.chance(250), EnumsInTypes: r.chance(300), MessyAnn: r.chance(350),
+	}
+	if r.chance(250) {
+		c.UnusedMacros = 1 + r.n(2)
 	}
 	return c
 }
@@ -71,6 +82,13 @@ var scalarRules = map[string][]string{
 	`"2021-01-02"`: {``, `{type: "date"}`},
 	`-7`:           {``, `{nullable: true}`},
 	`"x@y.zz"`:     {``, `{type: "email"}`},
+}
+
+var fuzzRules = []string{
+	`{type: ""}`, `{type: "@"}`, `{type: "@t0"}`, `{type: "nope"}`, `{or: []}`, `{or: [""]}`, `{or: [{type: ""}]}`, `{enum: []}`, `{enum: ""}`,
+	`{enum: @}`, `{min: "a"}`, `{min: }`, `{regex: ""}`, `{regex: "("}`, `{allOf: ""}`, `{allOf: []}`, `{allOf: "@t0"}`, `{additionalProperties: "x"}`,
+	`{additionalProperties: "@t0"}`, `{optional: 1}`, `{const: ""}`, `{}`, `{`, `{nullable: true, nullable: true}`, `{minLength: -1}`, `{precision: 999}`,
+	`{type: "enum"}`, `{type: "mixed"}`, `{type: "any"}`, `{serializeFormat: ""}`, `{minItems: 5}`, `{type: "array"}`, `{type: "object"}`,
 }
 
 // refType picks a type that may be referenced from here ("" if none).
@@ -129,6 +147,9 @@ func (g *gen) schemaBody(depth int, allowRefs bool) []string {
 			ex := scalarExamples[r.n(len(scalarExamples))]
 			rules := scalarRules[ex]
 			rule := rules[r.n(len(rules))]
+			if g.cfg.RuleFuzz && r.chance(400) {
+				rule = fuzzRules[r.n(len(fuzzRules))]
+			}
 			l := fmt.Sprintf("  %q: %s%s", key, ex, comma)
 			if rule != "" {
 				l += " // " + rule
@@ -357,6 +378,30 @@ func generateDoc(r *rng, cfg genCfg) *Doc {
 		u := &Node{KW: "URL", Params: path}
 		if withID && r.chance(600) {
 			pb := []string{"{", `  "id": 1`, "}"}
+			if cfg.PathBodyFuzz {
+				switch r.n(7) {
+				case 0:
+					if t := g.refType(false); t != "" {
+						pb = []string{"@" + t}
+					}
+				case 1:
+					if len(g.types) > 0 {
+						pb = []string{"@" + g.types[r.n(len(g.types))]} // also regex types
+					}
+				case 2:
+					pb = []string{"[1, 2]"}
+				case 3:
+					pb = []string{"1"}
+				case 4:
+					if len(g.types) > 1 {
+						pb = []string{"@" + g.types[0] + " | @" + g.types[1]}
+					}
+				case 5:
+					pb = []string{"{", `  "id": 1, // {nullable: true}`, `  "x": {"y": 1}`, "}"}
+				case 6:
+					pb = []string{"{}"}
+				}
+			}
 			u.Kids = append(u.Kids, &Node{KW: "Path", Body: pb})
 		}
 		if len(g.tags) > 0 && r.chance(300) {
@@ -409,6 +454,76 @@ func generateDoc(r *rng, cfg genCfg) *Doc {
 		}
 		body = append(body, u)
 	}
+	for i := 0; i < cfg.UnusedMacros; i++ {
+		name := g.ident("um", i)
+		m := &Node{KW: "MACRO", Params: "@" + name, Explicit: true}
+		switch r.n(6) {
+		case 0:
+			m.Kids = []*Node{{KW: "Query", Params: `"q=1"`, Body: []string{"{", `  "q": 1`, "}"}}}
+		case 1:
+			m.Kids = []*Node{{KW: "Headers", Body: []string{"{", `  "X-Um": "v"`, "}"}}}
+		case 2:
+			m.Kids = []*Node{{KW: "Description", Body: []string{"Unused macro text."}}}
+		case 3:
+			m.Kids = []*Node{{KW: "TYPE", Params: "@" + g.ident("umt", i), Body: []string{"{", `  "u": 1`, "}"}}}
+		case 4:
+			m.Kids = []*Node{{KW: "SERVER", Params: "@" + g.ident("umsrv", i), Kids: []*Node{{KW: "BaseUrl", Params: `"https://um.example.com"`}}}}
+		case 5:
+			m.Kids = []*Node{{KW: "Request", Kids: []*Node{{KW: "Body", Body: []string{"{", `  "rb": 1`, "}"}}}}, {KW: "202", Params: "any"}}
+		}
+		body = append(body, m)
+	}
+	if cfg.MacroGraph > 0 {
+		n := cfg.MacroGraph
+		for i := 0; i < n; i++ {
+			m := &Node{KW: "MACRO", Params: "@" + g.ident("gm", i), Explicit: true}
+			m.Kids = append(m.Kids, &Node{KW: fmt.Sprint(430 + i), Params: "any"})
+			for e := r.n(3); e > 0; e-- {
+				m.Kids = append(m.Kids, &Node{KW: "PASTE", Params: "@" + g.ident("gm", r.n(n))})
+			}
+			body = append(body, m)
+		}
+		body = append(body, &Node{KW: "GET", Params: "/macrograph", Kids: []*Node{{KW: "200", Params: "any"}, {KW: "PASTE", Params: "@" + g.ident("gm", r.n(n))}}})
+	}
+	if cfg.DupPathParams > 0 {
+		path := "/dup"
+		for k := 0; k < cfg.DupPathParams; k++ {
+			path += fmt.Sprintf("/{p%c}", 'a'+k)
+		}
+		path += "/again"
+		for k := 0; k < cfg.DupPathParams; k++ {
+			path += fmt.Sprintf("/{p%c}", 'a'+k)
+		}
+		body = append(body, &Node{KW: "GET", Params: path, Kids: []*Node{{KW: "200", Params: "any"}}})
+	}
+	if cfg.PathRedescribe > 0 {
+		path, pb := "/redesc", []string{"{"}
+		for k := 0; k < cfg.PathRedescribe; k++ {
+			path += fmt.Sprintf("/{q%c}", 'a'+k)
+			c := ","
+			if k == cfg.PathRedescribe-1 {
+				c = ""
+			}
+			pb = append(pb, fmt.Sprintf(`  "q%c": 1%s`, 'a'+k, c))
+		}
+		pb = append(pb, "}")
+		body = append(body, &Node{KW: "URL", Params: path, Kids: []*Node{
+			{KW: "Path", Body: pb},
+			{KW: "GET", Kids: []*Node{{KW: "Path", Body: pb}, {KW: "200", Params: "any"}}},
+		}})
+	}
+	if cfg.MessyAnn {
+		var style func(nn []*Node)
+		style = func(nn []*Node) {
+			for _, n := range nn {
+				if n.Ann != "" && n.KW != "JSIGHT" {
+					n.AnnStyle = r.n(3)
+				}
+				style(n.Kids)
+			}
+		}
+		style(body)
+	}
 	// shuffle the top-level declarations a little (declaration order must not matter for validity)
 	if r.chance(500) {
 		for i := len(body) - 1; i > 0; i-- {
@@ -440,10 +555,16 @@ func (d *Doc) renderNode(n *Node, ind int) {
 	if n.Params != "" {
 		l += " " + n.Params
 	}
-	if n.Ann != "" {
-		l += " // " + n.Ann
+	switch {
+	case n.Ann == "":
+		d.lines = append(d.lines, l)
+	case n.AnnStyle == 1:
+		d.lines = append(d.lines, l+" //   "+strings.ReplaceAll(n.Ann, " ", "\t  ")+"  ")
+	case n.AnnStyle == 2:
+		d.lines = append(d.lines, l+" /* "+n.Ann, pad+"      continued   here", pad+"   */")
+	default:
+		d.lines = append(d.lines, l+" // "+n.Ann)
 	}
-	d.lines = append(d.lines, l)
 	for _, b := range n.Body {
 		if b == "" {
 			d.lines = append(d.lines, "")
@@ -565,9 +686,55 @@ func cutText(text string, runs [][2]int, r *rng, baseDir string, maxDepth int) (
 			parent.inner = append(parent.inner, x)
 		}
 	}
+	// identical runs elsewhere in the text: cut them too, so that one file is included several times
+	if len(chosen) > 0 && r.chance(600) {
+		textOf := func(c [2]int) string { return strings.Join(lines[c[0]:c[1]], "\n") }
+		base := chosen[r.n(len(chosen))]
+		bt := textOf(base)
+		for _, c := range runs {
+			if c == base || c[1]-c[0] != base[1]-base[0] || textOf(c) != bt {
+				continue
+			}
+			ok := true
+			for _, o := range chosen {
+				disjoint := c[1] <= o[0] || o[1] <= c[0]
+				nested := (c[0] >= o[0] && c[1] <= o[1]) || (o[0] >= c[0] && o[1] <= c[1])
+				if !(disjoint || nested) || c == o {
+					ok = false
+				}
+			}
+			if ok {
+				chosen = append(chosen, c)
+				regs = append(regs, &cutRegion{from: c[0], to: c[1]})
+			}
+		}
+		// rebuild the region tree with the additional regions
+		tops = tops[:0]
+		for _, x := range regs {
+			x.inner = nil
+		}
+		for _, x := range regs {
+			if depthOf(x) >= maxDepth {
+				continue
+			}
+			var parent *cutRegion
+			for _, o := range regs {
+				if o != x && o.from <= x.from && x.to <= o.to && depthOf(o) < maxDepth {
+					if parent == nil || (o.to-o.from) < (parent.to-parent.from) {
+						parent = o
+					}
+				}
+			}
+			if parent == nil {
+				tops = append(tops, x)
+			} else {
+				parent.inner = append(parent.inner, x)
+			}
+		}
+	}
 	multi = Project{Root: root, Cwd: "/sim/cwd"}
 	byContent := map[string]string{} // dir+"\x00"+content -> file name (reuse: same file included several times)
-	counter := 0
+	perDir := map[string]int{}       // names are unique per directory only: the same spelling occurs in several directories
 	var emit func(from, to int, inner []*cutRegion, dir string) string
 	emit = func(from, to int, inner []*cutRegion, dir string) string {
 		// sort inner by from
@@ -583,20 +750,21 @@ func cutText(text string, runs [][2]int, r *rng, baseDir string, maxDepth int) (
 				sb.WriteString(lines[at] + "\n")
 			}
 			// place the file: same directory or a sub-directory
+			// the sub-directory is a function of the moved text, so that identical runs land in one file
 			sub := ""
-			switch r.n(4) {
+			switch hash64(strings.Join(lines[c.from:c.to], "\n")) % 4 {
 			case 0:
 				sub = "inc"
 			case 1:
-				sub = fmt.Sprintf("d%d/x", r.n(2))
+				sub = fmt.Sprintf("d%d/x", hash64(lines[c.from])%2)
 			}
 			cdir := filepath.Join(dir, sub)
 			content := emit(c.from, c.to, c.inner, cdir)
 			key := cdir + "\x00" + content
 			name, ok := byContent[key]
 			if !ok {
-				counter++
-				name = fmt.Sprintf("part%d.jst", counter)
+				perDir[cdir]++
+				name = fmt.Sprintf("part%d.jst", perDir[cdir])
 				byContent[key] = name
 				multi.set(filepath.Join(cdir, name), []byte(content))
 			}
